@@ -267,7 +267,9 @@ def spec_to_impl(tier, ev, verd, stats):
         ev.add_tlc(r)
         stats["tlc"][part] = {"states": r.distinct, "configurations": len(r.replay), "wall_s": round(r.wall, 1)}
         if part == "layout":
-            stats["layout_types_checked_by_tlc"] = r.distinct - 13      # root + 12 block states
+            stats["layout_root_types_checked_by_tlc"] = r.distinct - 13      # root + 12 block states
+            # thorough: every root of depth <= 1 is also checked inside each one-level wrapper (MCBoundary!Wrapped)
+            stats["layout_wrappers_per_root"] = 0 if depth == 1 else 2 + 4 * len(LEAVES)
         cfgs.extend(r.replay)
     for c in cfgs:
         count_cfg(c, stats)
@@ -370,7 +372,7 @@ def random_configs(rng, n):
 
 def boundary_trace(tier, ev, verd, stats):
     rng = random.Random(vlib.seed() * 13 + 5)
-    n = 3000 if tier == "quick" else 30000
+    n = 3000 if tier == "quick" else 60000
     cfgs = random_configs(rng, n)
     results = execute(cfgs, "random")
     events = []
@@ -460,7 +462,8 @@ def run(tier):
     ev.extra["zero_sized_argument_position_counts"] = stats["zst_args"]
     ev.extra["context_structs"] = len(stats["ctx_structs"])
     ev.extra["context_field_position_counts"] = stats["ctx_pos"]
-    ev.extra["layout_types_checked_by_tlc"] = stats.get("layout_types_checked_by_tlc")
+    ev.extra["layout_root_types_checked_by_tlc"] = stats.get("layout_root_types_checked_by_tlc")
+    ev.extra["layout_wrappers_checked_per_root_of_depth_le_1"] = stats.get("layout_wrappers_per_root")
     ev.extra["layout_events"] = stats.get("layout_events")
     ev.extra["layout_events_of_enums_with_measured_offsets"] = stats.get("layout_enum_events")
     ev.extra["layout_events_accepted"] = stats.get("layout_events_accepted")
